@@ -1073,6 +1073,7 @@ class C11(Spec):
         src, sub, defs = G.macro_document(rng)
         c = H([call(src, safeMode=0, reset=True, cb=True)], state=True)
         c['variants'] = [H([call(sub, safeMode=0, reset=True, cb=True)])]
+        c['meta'] = {'defined': sorted(defs)}
         return c
 
     def streams(self, ctx):
@@ -1088,12 +1089,15 @@ class C11(Spec):
             return None
         a = impl['calls'][0]
         b = variants[0]['calls'][0]
-        if O.squeeze(a['html']) != O.squeeze(b['html']):
+        # a paragraph all of whose lines were deleted; blanks left at the start of an item by a blank value
+        norm = lambda h: O.squeeze(re.sub(r'(<li>|<dd>|<h\d>|<p>) +', r'\1', h.replace('<p></p>', '')))
+        if norm(a['html']) != norm(b['html']):
             return ('C11/substitution', 'macro document %r renders %r; hand-substituted %r renders %r'
                     % (case['calls'][0]['src'][:200], a['html'][:200], case['variants'][0]['calls'][0]['src'][:200], b['html'][:200]))
         # undefined invocations are reported, defined ones are not
         for m in a['log']:
-            if m[1].startswith('undefined macro') and '{undef' not in m[1]:
+            mm = re.match(r'undefined macro: \\?\{([\w-]+)', m[1])
+            if mm and mm.group(1) in case['meta']['defined']:
                 return ('C11/spurious-undefined', m[1][:100])
         return None
 
@@ -1185,7 +1189,7 @@ class C12(Spec):
         if opt:
             attr_lines.append('.' + opt)
         if not attr_lines:
-            attr_lines = ['.kx1']
+            attr_lines = ['.kx1 ky2']
             parts['cls'] = True
         rng.shuffle(attr_lines)
         for a in attr_lines:
@@ -1246,9 +1250,9 @@ class C12(Spec):
             return None
         # block options affect that one block only
         if '<em>one</em>' not in html:
-            return ('C12/option-leaks:' + str(opt) + ':' + kind, 'mode %d: the following paragraph lost its markup: %r' % (mode, html[:300]))
+            return ('C12/option-leaks', 'mode %d, option %s before a %s: the following paragraph lost its markup or was skipped: %r' % (mode, opt, kind, html[:300]))
         if '<h2>After two</h2>' not in html or 'after three' not in html:
-            return ('C12/option-leaks:' + str(opt) + ':' + kind, 'mode %d: a following block is missing: %r' % (mode, html[:300]))
+            return ('C12/option-leaks', 'mode %d, option %s before a %s: a following block is missing: %r' % (mode, opt, kind, html[:300]))
         if opt == '+skip' and kind in ('para', 'code', 'division', 'quote', 'indented', 'qpara') and md['tag'] + '>' in html.split('after')[0] \
                 and kind != 'para':
             return ('C12/skip-ignored:' + kind, 'mode %d: +skip did not skip the block: %r' % (mode, html[:200]))
@@ -1274,7 +1278,7 @@ class C17(Spec):
               ('entity', '&amp;'), ('entity', '&#160;'), ('macro', '{mac}'), ('macro', '{mac|p}'), ('anchor', '<<#anc>>')]
     LINE = [('header', '# Title'), ('header', '== Sub'), ('listitem', '- item'), ('listitem', '. numbered'), ('listitem', 'term:: def'),
             ('comment', '// comment'), ('attributes', '.cls #id'), ('attributes', '.+skip'), ('macrodef', "{mac}='v2'"),
-            ('quotedef', "= = '<u>|</u>'"), ('repldef', "/foo/='bar'"), ('blockdef', "|code|='<pre>|</pre>'"), ('option', ".safeMode='1'"),
+            ('quotedef', "= = 'A|B'"), ('repldef', "/foo/='bar'"), ('blockdef', "|code|='+macros'"), ('option', ".safeMode='1'"),
             ('blockimage', '<image:i.png>'), ('blockanchor', '<<#anc>>'), ('delimiter', '..'), ('delimiter', '""'), ('delimiter', '``'),
             ('delimiter', '/*'), ('quotepara', '> quoted'), ('htmlblock', '<div>'), ('indented?', None)]
 
@@ -1291,10 +1295,13 @@ class C17(Spec):
             elif pos == 'after':
                 src, exp = 'text ' + body + ' end', '<p>text ' + O.escape(lit) + ' end</p>'
             elif pos == 'quote':
-                if any(k == 'quote' and x[0] in '*' for k, x in items):
+                used = set(x[0] for k, x in items if k == 'quote')
+                if '*' not in used:
+                    src, exp = '*x ' + body + ' y*', '<p><em>x ' + O.escape(lit) + ' y</em></p>'
+                elif '~' not in used:
                     src, exp = '~~x ' + body + ' y~~', '<p><del>x ' + O.escape(lit) + ' y</del></p>'
                 else:
-                    src, exp = '*x ' + body + ' y*', '<p><em>x ' + O.escape(lit) + ' y</em></p>'
+                    src, exp = 'text ' + body + ' end', '<p>text ' + O.escape(lit) + ' end</p>'
             else:
                 src, exp = '- ' + 'w ' + body, '<ul><li>w ' + O.escape(lit) + '</li></ul>'
             kinds = sorted(set(k for k, _ in items))
@@ -1332,6 +1339,14 @@ class C17(Spec):
         if O.squeeze(got) != O.squeeze(md['expect']):
             kinds = md['kinds']
             kind = kinds[0] if len(kinds) == 1 else 'mixed-inline'
+            srcx = case['calls'][0]['src']
+            if 'quote' in kinds and re.search(r'\\(\*\*|__)[^*_]+(\*\*|__).*\\[*_][^*_]', srcx):
+                kind = 'escaped-double-then-single-quote'
+            # an escaped element that opens the line is first seen by the line rules
+            if re.search(r'(?m)^\\<image:', srcx) and '<img' in got:
+                return ('C17/blockimage:<image:i.png', 'source %r renders %r' % (srcx[:200], got[:200]))
+            if re.search(r'(?m)^\\<<#', srcx) and 'id="anc"' in got:
+                return ('C17/blockanchor:<<#anc>>', 'source %r renders %r' % (srcx[:200], got[:200]))
             return ('C17/' + kind + (':' + md['elem'].split(' ')[0][:12] if md.get('line') else ''),
                     'source %r renders %r, literal rendering is %r' % (case['calls'][0]['src'][:200], got[:200], md['expect'][:200]))
         st = impl.get('state')
@@ -1339,7 +1354,7 @@ class C17(Spec):
             if st['mode'] != case['calls'][0]['safeMode']:
                 return ('C17/option-executed', 'safeMode became %r' % st['mode'])
             if any(q[0] == '=' for q in st['quotes']) or any(r[0] == 'foo' for r in st['repls']) or \
-                    any(d[0] == 'code' and d[1] == '<pre>' for d in st['dblocks']) or any(m == ['mac', 'v2'] for m in st['macros']):
+                    any(d[0] == 'code' and d[3][:2] == 'b1' for d in st['dblocks']) or any(m == ['mac', 'v2'] for m in st['macros']):
                 return ('C17/definition-executed', 'an escaped definition took effect')
         return None
 
@@ -1452,7 +1467,13 @@ class C02(Spec):
         for name in sorted(tbl):
             pat, fl = tbl[name]
             for _ in range(n_per):
-                t = SR.text_for(pat, fl, rng, pump=size // 4)
+                t = ''
+                for _try in range(6):
+                    t2 = SR.text_for(pat, fl, rng, pump=size // 3)
+                    if len(t2) > len(t):
+                        t = t2
+                    if len(t) >= size // 3:
+                        break
                 t = t.replace('\r', ' ')[:size]
                 if len(t) < 200:
                     continue
